@@ -33,7 +33,7 @@ Section Safety.
   Proof. induction vs as [|v r IH]; simpl; [reflexivity|]. now rewrite IH. Qed.
 
   Lemma set_dN_app Ns a v : forall l, exists d,
-    set_dN Ns l (a ++ [v]) = set_dN Ns l a ++ [mkLev (lN v) d (lcnt v) (lcost v) (lrows v)].
+    set_dN Ns l (a ++ [v]) = set_dN Ns l a ++ [mkLev (lN v) d (lcnt v) (lcost v) (lrows v) (lpasses v)].
   Proof. induction a as [|x a IH]; simpl; intros l.
     - eexists. reflexivity.
     - destruct (IH (S l)) as [d Hd]. exists d. now rewrite Hd. Qed.
